@@ -177,6 +177,8 @@ class Checker:
             "trusted_base": self.trusted,
             "explanation": self.explanation,
             "analysed": self.analysed,
+            "rules_applied": {r: sum(1 for o in self.obligations if o["rule"] == r) for r in sorted({o["rule"] for o in self.obligations})},
+            "constructs": sorted({o["construct"] for o in self.obligations})[:60],
             "floors": self.floors,
             "infos": self.infos[:40],
             "known_findings_reported": [v["rule"] + " " + v["construct"] for v, _ in known],
